@@ -25,7 +25,9 @@ RULE = ("same exploration as C05 (BFS over every store order of every "
         "Big-payload family (chunks of 0..12289 bytes, 4 orders x both "
         "buffering strategies, three length patterns). Huge-grid family: "
         "7 grids of 2^33..2^63 chunks, 7 chunks each whose identifiers have "
-        "the top bits set (beyond 2^32 and 2^53). "
+        "the top bits set (beyond 2^32 and 2^53). Two-scale sessions on one "
+        "accessor object (close between the scales / single close / "
+        "alternating stores) on 4 configurations. "
         "Non-trivial states: >= 2 chunks stored.")
 ASSUMPTIONS = [
     "DESIGN.md Appendix A.1 restates the sharded format correctly "
@@ -146,6 +148,13 @@ def units(tier):
     u += [{"kind": "big", "configs": bc[i:i + 8], "tier": tier}
           for i in range(0, len(bc), 8)]
     u.append({"kind": "huge-grid", "tier": tier})
+    # several write sessions on one accessor object (store, close, store
+    # into another scale, close ...), read by the specification-only reader
+    for (size, c) in base.TWO_SCALE_GRIDS[:2]:
+        for t in ((1, 1, 0), (2, 0, 0)):
+            u.append({"kind": "two-scale", "tier": tier, "configs": [
+                {"size": list(size), "chunk": c, "triple": list(t),
+                 "index_enc": "raw", "data_enc": "raw"}]})
     return u
 
 
@@ -157,6 +166,12 @@ def space(tier):
 
 def run_unit(u):
     col = Collector()
+    if u.get("kind") == "two-scale":
+        for cfg in u["configs"]:
+            base.two_scale_config(col, cfg, FAMILY, pkg=False, spec=True)
+        col.sample(se.case_of(dict(u["configs"][0], strategy="on disk"),
+                              [1, 0], order_s1=[0], family="two-scale"))
+        return col.result()
     if u.get("kind") == "huge-grid":
         for logn, triple in HUGE_GRIDS:
             _eval_huge_grid(col, logn, triple)
